@@ -9,6 +9,8 @@ import (
 	"fmt"
 	"io"
 	"math/big"
+	"os"
+	"syscall"
 	"testing"
 
 	"github.com/bilibili/smgo/sm2"
@@ -33,6 +35,8 @@ type faultyReader struct {
 	ci       int
 	reads    int
 	failed   bool
+	transient bool // the error is reported ONCE; afterwards the source delivers the rest of the stream as if nothing had happened
+	reported bool
 }
 
 func (f *faultyReader) Read(p []byte) (int, error) {
@@ -41,8 +45,12 @@ func (f *faultyReader) Read(p []byte) (int, error) {
 		panic("faultyReader: runaway reader loop")
 	}
 	limit := len(f.data)
-	if f.failAt >= 0 {
+	if f.failAt >= 0 && !(f.transient && f.reported) {
 		limit = f.failAt
+	}
+	if f.transient && !f.reported && f.failAt >= 0 && f.pos >= limit {
+		f.reported = true
+		return 0, f.err
 	}
 	if f.failed || f.pos >= limit {
 		f.failed = true
@@ -64,38 +72,55 @@ func (f *faultyReader) Read(p []byte) (int, error) {
 	}
 	copy(p, f.data[f.pos:f.pos+n])
 	f.pos += n
-	if f.withData && f.failAt >= 0 && f.pos == limit && n > 0 {
-		f.failed = true
+	if f.withData && f.failAt >= 0 && f.pos == limit && n > 0 && !f.reported {
+		if f.transient {
+			f.reported = true
+		} else {
+			f.failed = true
+		}
 		return n, f.err
 	}
 	return n, nil
 }
 
 type c19Script struct {
-	stream   []byte
-	need     int // bytes that must be delivered for the call to succeed
-	failAt   int
-	err      error
-	withData bool
-	chunks   []int
+	stream    []byte
+	need      int // bytes that must be delivered for the call to succeed
+	failAt    int
+	err       error
+	withData  bool
+	chunks    []int
+	transient bool
 }
 
 func (s *c19Script) reader() *faultyReader {
-	return &faultyReader{data: s.stream, failAt: s.failAt, err: s.err, withData: s.withData, chunks: s.chunks}
+	return &faultyReader{data: s.stream, failAt: s.failAt, err: s.err, withData: s.withData, chunks: s.chunks, transient: s.transient}
 }
 
 // c19Judge applies the model. gotErr/outputsNil describe the call's result; equalRef tells whether a successful result equals the reference.
 func c19Judge(t vt.TB, rec *stats.Recorder, fn string, s *c19Script, rd *faultyReader, panicked interface{}, gotErr error, outputsNil bool, equalRef func() bool) {
-	desc := fmt.Sprintf("%s: stream of %d bytes, %d needed, first failure at byte %d (err=%v, with data=%v), chunks=%v", fn, len(s.stream), s.need, s.failAt, s.err, s.withData, s.chunks)
+	desc := fmt.Sprintf("%s: stream of %d bytes, %d needed, first failure at byte %d (err=%v, with data=%v, source recovers afterwards=%v), chunks=%v", fn, len(s.stream), s.need, s.failAt, s.err, s.withData, s.transient, s.chunks)
 	if panicked != nil {
-		vt.Fail(t, rec, "C19:"+fn+":panic", "panic %v\n%s\nstream=%x", panicked, desc, s.stream)
+		vt.Fail(t, rec, "C19:"+fn+":panic", "panic %v\n%s\nstream=%s", panicked, desc, stats.Hex(s.stream))
 		return
 	}
 	mustFail := s.failAt >= 0 && s.failAt < s.need
-	ambiguous := s.failAt == s.need && s.withData // error delivered together with the last needed byte
+	// An error delivered TOGETHER WITH the byte that completes a 32-byte unit is dropped by io.ReadFull (it returns n == 32, nil):
+	// whether the call then reports it is a matter of reading, so both outcomes are accepted — at the last needed byte always,
+	// and at an earlier unit boundary when the source recovers afterwards (otherwise the next read fails anyway).
+	ambiguous := s.withData && s.failAt > 0 && s.failAt%32 == 0 && (s.failAt == s.need || (s.transient && s.failAt < s.need))
+	if ambiguous && mustFail {
+		if gotErr != nil {
+			if !outputsNil {
+				vt.Fail(t, rec, "C19:"+fn+":output-with-error", "an error was returned together with a public key / signature\n%s", desc)
+			}
+			return
+		}
+		mustFail = false // judged as a success below: the result must then be the reference result
+	}
 	if mustFail {
 		if gotErr == nil {
-			vt.Fail(t, rec, "C19:"+fn+":no-error", "randomness failed before the needed bytes were delivered, but the call succeeded\n%s\nstream=%x", desc, s.stream)
+			vt.Fail(t, rec, "C19:"+fn+":no-error", "randomness failed before the needed bytes were delivered, but the call succeeded\n%s\nstream=%s", desc, stats.Hex(s.stream))
 			return
 		}
 		if !outputsNil {
@@ -107,14 +132,14 @@ func c19Judge(t vt.TB, rec *stats.Recorder, fn string, s *c19Script, rd *faultyR
 		if ambiguous && outputsNil {
 			return // reporting the error that came with the final bytes is also fine
 		}
-		vt.Fail(t, rec, "C19:"+fn+":spurious-error", "all needed bytes were delivered without error, but the call returned %v\n%s\nstream=%x", gotErr, desc, s.stream)
+		vt.Fail(t, rec, "C19:"+fn+":spurious-error", "all needed bytes were delivered without error, but the call returned %v\n%s\nstream=%s", gotErr, desc, stats.Hex(s.stream))
 		return
 	}
 	if !equalRef() {
-		vt.Fail(t, rec, "C19:"+fn+":partial-fill", "result differs from the reference on the delivered bytes (a short read was not completed, or a partially filled buffer was used)\n%s\nstream=%x", desc, s.stream)
+		vt.Fail(t, rec, "C19:"+fn+":partial-fill", "result differs from the reference on the delivered bytes (a short read was not completed, or a partially filled buffer was used)\n%s\nstream=%s", desc, stats.Hex(s.stream))
 		return
 	}
-	if rd.pos > s.need {
+	if rd.pos > s.need && !s.transient {
 		vt.Fail(t, rec, "C19:"+fn+":overread", "consumed %d bytes, only %d were needed\n%s", rd.pos, s.need, desc)
 	}
 }
@@ -145,7 +170,15 @@ func c19RunKeygen(t vt.TB, rec *stats.Recorder, s *c19Script) {
 	})
 }
 
-var c19Errs = []error{io.EOF, io.ErrUnexpectedEOF, errC19}
+// an error that declares itself temporary (as EAGAIN/EINTR and net-style errors do)
+type c19TempErr struct{}
+
+func (c19TempErr) Error() string   { return "verif: temporary entropy failure" }
+func (c19TempErr) Temporary() bool { return true }
+func (c19TempErr) Timeout() bool   { return true }
+
+var c19Errs = []error{io.EOF, io.ErrUnexpectedEOF, errC19, syscall.EAGAIN, syscall.EINTR,
+	&os.PathError{Op: "read", Path: "/dev/hwrng", Err: syscall.EAGAIN}, fmt.Errorf("rng: %w", c19TempErr{}), os.ErrDeadlineExceeded}
 
 func c19Chunks(t *rapid.T) []int {
 	switch gen.Pick(t, "chunking", "full", "full", "bytes", "mixed", "zeros") {
@@ -176,7 +209,7 @@ func c19Chunks(t *rapid.T) []int {
 
 func TestVerif_C19_Sign(t *testing.T) {
 	rec := stats.Get("C19", "sign")
-	rec.Rule("rapid: SignHashed under a scripted reader: stream = 0..4 candidates that must be rejected (k>=n, k=0, r=0, r+k=n, s=0 by construction) + acceptable + trailing; reads chunked (full, byte-wise, mixed sizes incl. up to 3 consecutive empty successful reads); first failure at a drawn byte offset (anywhere in 0..len, weighted to the inside of each candidate and to candidate boundaries) with io.EOF / io.ErrUnexpectedEOF / a custom error, alone or together with the final chunk; or no failure. Oracle (ReadFull model): failure before the last needed byte -> err != nil, r = s = nil, no panic; otherwise success equal to the reference signature and no byte consumed beyond the accepted candidate. Non-trivial: failure strictly inside a candidate, or after >= 1 rejected candidate, or chunked reads; distinct by (stream, failAt, err, chunks).")
+	rec.Rule("rapid: SignHashed under a scripted reader: stream = 0..4 candidates that must be rejected (k>=n, k=0, r=0, r+k=n, s=0 by construction) + acceptable + trailing; reads chunked (full, byte-wise, mixed sizes incl. up to 3 consecutive empty successful reads); first failure at a drawn byte offset (anywhere in 0..len, weighted to the inside of each candidate and to candidate boundaries) with io.EOF / io.ErrUnexpectedEOF / a custom error / EAGAIN / EINTR / a PathError / a wrapped error whose Temporary() is true / a deadline error, alone or together with the final chunk, the source either staying failed or RECOVERING after having reported the error once; or no failure. Oracle (ReadFull model): failure before the last needed byte -> err != nil, r = s = nil, no panic; otherwise success equal to the reference signature and no byte consumed beyond the accepted candidate. Non-trivial: failure strictly inside a candidate, or after >= 1 rejected candidate, or chunked reads; distinct by (stream, failAt, err, chunks).")
 	t.Cleanup(stats.FlushAll)
 	rapid.Check(t, func(t *rapid.T) {
 		c := sm2gen.DrawSignCase(t)
@@ -190,8 +223,9 @@ func TestVerif_C19_Sign(t *testing.T) {
 		case "anywhere":
 			s.failAt = gen.Uniform(t, "at", 0, len(c.Stream))
 		}
-		s.err = c19Errs[gen.Int(t, "err", 0, 2)]
+		s.err = c19Errs[gen.Uniform(t, "err", 0, len(c19Errs)-1)]
 		s.withData = gen.Bool(t, "withData")
+		s.transient = gen.Bool(t, "transient")
 		inside := s.failAt >= 0 && s.failAt%32 != 0 && s.failAt < s.need
 		nt := inside || (s.failAt >= 32 && len(c.Rejected) > 0) || s.chunks != nil
 		rec.Case(stats.Hash(c.Stream, c.DEnc, c.E, []byte(fmt.Sprint(s.failAt, s.err, s.withData, s.chunks))), nt,
@@ -228,8 +262,9 @@ func TestVerif_C19_Keygen(t *testing.T) {
 		case "anywhere":
 			s.failAt = gen.Uniform(t, "at", 0, len(stream))
 		}
-		s.err = c19Errs[gen.Int(t, "err", 0, 2)]
+		s.err = c19Errs[gen.Uniform(t, "err", 0, len(c19Errs)-1)]
 		s.withData = gen.Bool(t, "withData")
+		s.transient = gen.Bool(t, "transient")
 		inside := s.failAt >= 0 && s.failAt%32 != 0 && s.failAt < s.need
 		nt := inside || (s.failAt >= 32 && nrej > 0) || s.chunks != nil
 		rec.Case(stats.Hash(stream, []byte(fmt.Sprint(s.failAt, s.err, s.withData, s.chunks))), nt,
@@ -246,7 +281,7 @@ func TestVerif_C19_Keygen(t *testing.T) {
 func TestVerif_C19_AllPositions(t *testing.T) {
 	rec := stats.Get("C19", "all-positions")
 	rec.Exhaustive(true)
-	rec.Rule("complete enumeration: rejected-candidate prefixes of length 0..2 drawn from {k>=n (n, 2^256-1), k=0} for signing and {0, n-1, n, 2^256-1} for key generation (all combinations) + one valid candidate; first failure at EVERY byte offset 0..need x {EOF, ErrUnexpectedEOF, custom} x {error alone, error with the final chunk} x {full reads, 5-byte chunks}; plus GenerateKey(nil) and the never-failing reader. Oracle as above. Every case non-trivial; distinct by construction.")
+	rec.Rule("complete enumeration: rejected-candidate prefixes of length 0..2 drawn from {k>=n (n, 2^256-1), k=0} for signing and {0, n-1, n, 2^256-1} for key generation (all combinations) + one valid candidate; first failure at EVERY byte offset 0..need x {EOF, ErrUnexpectedEOF, custom, EAGAIN, EINTR, PathError, temporary, deadline} (source staying failed or recovering, alternating) x {error alone, error with the final chunk} x {full reads, 5-byte chunks}; plus GenerateKey(nil) and the never-failing reader. Oracle as above. Every case non-trivial; distinct by construction.")
 	t.Cleanup(stats.FlushAll)
 	d := new(big.Int).SetBytes(bytes.Repeat([]byte{0x5a}, 32))
 	d.Mod(d, sm2gen.NM2).Add(d, big.NewInt(1))
@@ -279,7 +314,7 @@ func TestVerif_C19_AllPositions(t *testing.T) {
 						if idx%sn != si {
 							continue
 						}
-						s := &c19Script{stream: stream, need: need, failAt: failAt, err: err, withData: wd == 1}
+						s := &c19Script{stream: stream, need: need, failAt: failAt, err: err, withData: wd == 1, transient: (failAt+ei+wd)%2 == 1}
 						if ch == 1 {
 							s.chunks = []int{5}
 						}
